@@ -312,14 +312,22 @@ def check_apply(rep, f):
                 ok, why = False, "%s summand is %s under %s, required %s under %s(%s.in_)" % (setter, term, cond, want, guard, elem)
                 break
         rep.check(ok, "R1.2", "%s|%s" % (setter, cls), "%s = SUM %s*%s" % (setter[3:], wname, getter), "%s::Apply: %s" % (cls, why), f.loc(es[0]["node"]), sample=True)
-    if cls == "Map_Sphere":
-        es = ev.get("setMass", [])
-        ok = len(es) == 1
-        if ok:
-            v = es[0]["args"][0]
-            ok = str(getattr(v, "func", "")).startswith("SUM_") and re.match(r"^getMass\(\w+\.in_\)$", str(v.args[0])) is not None
-        rep.check(ok, "R1.2", "setMass|Map_Sphere", "mass = SUM getMass(parent)", "Map_Sphere::Apply: mass passed to setMass is %s, not the plain sum of parent masses"
-                  % (str(es[0]["args"][0])[:200] if es else "missing"), f.loc(es[0]["node"] if es else None), sample=True)
+    # no setter is cut off by an earlier return: velocity, force and mass are mapped for every combination of present/absent positions,
+    # velocities and forces (a return placed before the setters - e.g. the ellipsoid's "first parent has no position" shortcut - drops them)
+    cut = sorted(k for k, es_ in ev.items() for e_ in es_ if "return" in e_.get("left_kinds", []))
+    rep.check(not cut, "R1.2", "setters-not-cut-off|" + cls, "no return precedes setPos/setVel/setF/setMass",
+              "%s::Apply can return before calling %s (an early return precedes the write-back): for frames that take that path the mapped %s are never set"
+              % (cls, ", ".join(cut), "/".join(c[3:].lower() for c in cut)), f.loc(ev[cut[0]][0]["node"]) if cut else f.loc())
+    # the mass clause holds for every kind of bead map (the property quantifies over every mapping definition): a map that never
+    # calls setMass leaves the bead with the mass 0 it was created with (CGMoleculeDef::CreateMolecule passes 0)
+    es = ev.get("setMass", [])
+    ok = len(es) == 1
+    if ok:
+        v = es[0]["args"][0]
+        ok = str(getattr(v, "func", "")).startswith("SUM_") and re.match(r"^getMass\(\w+\.in_\)$", str(v.args[0])) is not None
+    rep.check(ok, "R1.2", "setMass|" + cls, "mass = SUM getMass(parent)", "%s::Apply: mass passed to setMass is %s, not the plain sum of parent masses"
+              % (cls, str(es[0]["args"][0])[:200] if es else "missing (out_->setMass is never called: the bead keeps the mass 0 it was created with)"),
+              f.loc(es[0]["node"] if es else None), sample=True)
     # ---- R1.4 half-box guard: decided on the path conditions of the throw and of setPos (helpers inlined)
     from vsa.cases import decision_table
     bcn = f.j["params"][0]["name"]
